@@ -1,10 +1,207 @@
 import Driver.Common
-open Lean Drv
+import RxModel.Disp
+/-!
+# drv_disp — line-protocol driver for the disposable models (C25–C27)
+
+Request: `{"op":"run","cls":C,"threads":[...],"sched":[tid,...] | null, "items":k, ...}`
+* `cls`: disposable | boolean | scheduled | composite | serial | mad | sad | sad_asis | refcount
+* `threads`: per thread its program — a call count (disposable, boolean, scheduled callers) or a list of ops
+* `sched`: thread index per atomic step; `null` = run the threads one after the other to completion
+* `items`: number of item ids whose dispose counters are reported; `init`, `falsy`, `workers` where relevant
+Response: `{"ev":[[tid, event, obs|null],...], "final":obs, "stutter":n}` — `obs` (observable state after the
+step) is attached to every `ret`/`raise` event; `stutter` counts scheduled steps that did nothing.
+-/
+open Lean Drv Disp
 
 namespace DrvDisp
 
-def handle (op : String) (_j : Json) : Except String Json := do
+def rvToJson : RV → Json
+  | .unit => .null
+  | .bool b => .bool b
+  | .item none => Json.mkObj [("item", .null)]
+  | .item (some i) => Json.mkObj [("item", .num (JsonNumber.fromNat i))]
+  | .nat n => .num (JsonNumber.fromNat n)
+
+def natJ (n : Nat) : Json := .num (JsonNumber.fromNat n)
+
+def evToJson : Ev → Json
+  | .lock w => Json.arr #[.str "L", natJ w]
+  | .rd v => Json.arr #[.str "R", .bool v]
+  | .wr => Json.arr #[.str "W"]
+  | .disp i => Json.arr #[.str "D", natJ i]
+  | .action => Json.arr #[.str "A"]
+  | .sched => Json.arr #[.str "S"]
+  | .ret v => Json.arr #[.str "ret", rvToJson v]
+  | .raised => Json.arr #[.str "raise"]
+
+def isEnd : Ev → Bool
+  | .ret _ => true
+  | .raised => true
+  | _ => false
+
+structure Machine (σ π : Type) where
+  step : σ → π → σ × π
+  log : σ → List Ev
+  obs : σ → Json
+  done : σ → π → Bool
+
+structure Out where
+  evs : Array Json := #[]
+  stutter : Nat := 0
+
+def stepOnce {σ π} (m : Machine σ π) (s : Sys σ π) (tid : Nat) (o : Out) : Sys σ π × Out × Bool :=
+  let n0 := (m.log s.sh).length
+  let s' := s.step m.step tid
+  let new := (m.log s'.sh).drop n0
+  if new.isEmpty then (s', { o with stutter := o.stutter + 1 }, false)
+  else
+    let ob := m.obs s'.sh
+    let evs := new.foldl (fun acc e =>
+      acc.push (Json.arr #[natJ tid, evToJson e, if isEnd e then ob else .null])) o.evs
+    (s', { o with evs := evs }, true)
+
+def runSched {σ π} (m : Machine σ π) (s : Sys σ π) (sched : List Nat) : Sys σ π × Out :=
+  sched.foldl (fun (acc : Sys σ π × Out) tid =>
+    let (s', o', _) := stepOnce m acc.1 tid acc.2
+    (s', o')) (s, {})
+
+/-- run thread `tid` until it is done (bounded by `fuel`) -/
+def runThread {σ π} (m : Machine σ π) (tid : Nat) : Nat → Sys σ π × Out → Sys σ π × Out
+  | 0, acc => acc
+  | fuel + 1, (s, o) =>
+    match s.pcs[tid]? with
+    | none => (s, o)
+    | some p =>
+      if m.done s.sh p then (s, o)
+      else
+        let (s', o', progressed) := stepOnce m s tid o
+        if progressed then runThread m tid fuel (s', o') else (s', o')
+
+def runSeq {σ π} (m : Machine σ π) (s : Sys σ π) (fuel : Nat) : Sys σ π × Out :=
+  (List.range s.pcs.length).foldl (fun acc tid => runThread m tid fuel acc) (s, {})
+
+def finish {σ π} (m : Machine σ π) (r : Sys σ π × Out) : Json :=
+  Json.mkObj [("ev", .arr r.2.evs), ("final", m.obs r.1.sh), ("stutter", natJ r.2.stutter)]
+
+def go {σ π} (m : Machine σ π) (s : Sys σ π) (sched : Option (List Nat)) : Json :=
+  match sched with
+  | some sc => finish m (runSched m s sc)
+  | none => finish m (runSeq m s 100000)
+
+def cntJ (cnt : Nat → Nat) (k : Nat) : Json := .arr ((List.range k).map fun i => natJ (cnt i)).toArray
+
+def optJ : Option Nat → Json
+  | none => .null
+  | some i => natJ i
+
+/-! machines -/
+
+def mDisposable : Machine DSh DTh :=
+  { step := dStep, log := (·.log),
+    obs := fun s => Json.mkObj [("is_disposed", .bool s.isDisposed), ("actions", natJ s.actions)],
+    done := fun _ p => p.1 == .idle && p.2 == 0 }
+
+def mBoolean : Machine BSh Nat :=
+  { step := bStep, log := (·.log), obs := fun s => Json.mkObj [("is_disposed", .bool s.isDisposed)],
+    done := fun _ p => p == 0 }
+
+def mScheduled : Machine SSh SPc :=
+  { step := sStep, log := (·.log),
+    obs := fun s => Json.mkObj [("is_disposed", .bool s.sadDisposed), ("cnt", .arr #[natJ s.cnt]), ("queued", natJ s.queued)],
+    done := fun s p => match p with
+      | .caller 0 => true
+      | .done => true
+      | .waiting k => !(k < s.queued)
+      | _ => false }
+
+def mComposite (k : Nat) : Machine CSh CTh :=
+  { step := cStep, log := (·.log),
+    obs := fun s => Json.mkObj [("is_disposed", .bool s.isDisposed), ("items", .arr (s.items.map natJ).toArray),
+                                ("cnt", cntJ s.cnt k)],
+    done := fun _ p => p.1 == .idle && p.2.isEmpty }
+
+def mAssign (f : ASh → ATh → ASh × ATh) (k : Nat) : Machine ASh ATh :=
+  { step := f, log := (·.log),
+    obs := fun s => Json.mkObj [("is_disposed", .bool s.isDisposed), ("current", optJ s.current), ("cnt", cntJ s.cnt k)],
+    done := fun _ p => p.1 == .idle && p.2.isEmpty }
+
+def depJ : Dep → Json
+  | .inert _ => .str "inert"
+  | .inner _ => .str "inner"
+
+def mRefCount : Machine RSh RTh :=
+  { step := rStep, log := (·.log),
+    obs := fun s => Json.mkObj [("is_disposed", .bool s.isDisposed), ("is_primary_disposed", .bool s.isPrimaryDisposed),
+                                ("cnt", .arr #[natJ s.und]), ("deps", .arr (s.deps.map depJ).toArray)],
+    done := fun _ t => t.pc == .idle && t.prog.isEmpty }
+
+/-! request parsing -/
+
+def natOf (j : Json) : Except String Nat :=
+  match j.getNat? with
+  | .ok n => pure n
+  | .error e => throw e
+
+def cOpOf (j : Json) : Except String COp := do
+  match j with
+  | .arr #[.str "add", i] => pure (.add (← natOf i))
+  | .arr #[.str "remove", i] => pure (.remove (← natOf i))
+  | .arr #[.str "clear"] => pure .clear
+  | .arr #[.str "dispose"] => pure .dispose
+  | .arr #[.str "len"] => pure .len
+  | .arr #[.str "contains", i] => pure (.contains (← natOf i))
+  | _ => throw s!"bad composite op {j.compress}"
+
+def aOpOf (j : Json) : Except String AOp := do
+  match j with
+  | .arr #[.str "set", i] => pure (.set (← natOf i))
+  | .arr #[.str "get"] => pure .get
+  | .arr #[.str "dispose"] => pure .dispose
+  | _ => throw s!"bad assignment op {j.compress}"
+
+def rOpOf (j : Json) : Except String ROp := do
+  match j with
+  | .arr #[.str "get"] => pure .get
+  | .arr #[.str "rel", h] => pure (.rel (← natOf h))
+  | .arr #[.str "relm", h] => pure (.relMine (← natOf h))
+  | .arr #[.str "dispose"] => pure .dispose
+  | _ => throw s!"bad refcount op {j.compress}"
+
+def progsOf {α} (f : Json → Except String α) (j : Json) : Except String (List (List α)) := do
+  (← getArr j "threads").mapM fun t =>
+    match t with
+    | .arr xs => xs.toList.mapM f
+    | _ => throw "thread program must be a list"
+
+def natsOf (j : Json) (k : String) : Except String (List Nat) := do
+  (← getArr j k).mapM natOf
+
+def handle (op : String) (j : Json) : Except String Json := do
   match op with
+  | "run" =>
+    let cls ← getStr j "cls"
+    let sched : Option (List Nat) ←
+      match j.getObjVal? "sched" with
+      | .ok (.arr xs) => do pure (some (← xs.toList.mapM natOf))
+      | _ => pure none
+    let k := (j.getObjValAs? Nat "items").toOption.getD 0
+    match cls with
+    | "disposable" => pure (go mDisposable (dInit (← natsOf j "threads")) sched)
+    | "boolean" => pure (go mBoolean (bInit (← natsOf j "threads")) sched)
+    | "scheduled" =>
+      let w ← getNat j "workers"
+      pure (go mScheduled (sInit (← natsOf j "threads") w) sched)
+    | "composite" =>
+      let init ← natsOf j "init"
+      pure (go (mComposite k) (cInit init (← progsOf cOpOf j)) sched)
+    | "serial" => pure (go (mAssign serStep k) (aInit (← progsOf aOpOf j)) sched)
+    | "mad" => pure (go (mAssign madStep k) (aInit (← progsOf aOpOf j)) sched)
+    | "sad" => pure (go (mAssign sadStep k) (aInit (← progsOf aOpOf j)) sched)
+    | "sad_asis" =>
+      let fl ← natsOf j "falsy"
+      pure (go (mAssign (sadAsIsStep fun i => fl.contains i) k) (aInit (← progsOf aOpOf j)) sched)
+    | "refcount" => pure (go mRefCount (rInit (← progsOf rOpOf j)) sched)
+    | _ => throw s!"unknown cls {cls}"
   | _ => throw s!"unknown op {op}"
 
 end DrvDisp
